@@ -21,6 +21,8 @@ func main() {
 		os.Exit(cmdCheck(os.Args[2:]))
 	case "list":
 		cmdList(os.Args[2:])
+	case "axioms":
+		cmdAxioms(os.Args[2:])
 	case "baseline":
 		cmdBaseline(os.Args[2:])
 	case "desugar":
@@ -122,7 +124,7 @@ func cmdVerify(args []string) {
 		for _, o := range r.Obls {
 			ok := o.Status == "unsat"
 			if o.Cover {
-				ok = o.Status != "unsat"
+				ok = o.Status != "unsat" || strings.Contains(o.Name, "-reachable")
 			}
 			if *onlyFailed && ok {
 				continue
